@@ -13,7 +13,7 @@ import subprocess
 from verifkit.core import VERIF, harness, drv
 
 STREAM = "c01-front-cue"
-DOCS = False   # stage 2 (cueValid / FragCue / parser soundness instances) switches the document rows on
+DOCS = True   # stage 2 (cueValid / FragCue / parser soundness instances) switches the document rows on
 PROPOSED = os.path.join(VERIF, "checks", "c01.front_cue.proposed_findings.json")
 
 
@@ -83,7 +83,7 @@ def tie(c, hb, theorems_proved=True):
           "documents": 0, "valid": 0, "invalid": 0, "frag_cases": 0, "frag_documents": 0, "frag_valid": 0, "frag_valid_in_srcDen_real": 0,
           "inexact_documents": 0}
     kinds, notfrag, case_line, cvdef, schema_text = {}, {}, {}, {}, {}
-    front_bad, oracle_bad, valid_bad, inst_bad, minst_bad, witness = [], [], [], [], [], []
+    front_bad, oracle_bad, valid_bad, inst_bad, minst_bad, witness, strict_bad, e2e_bad = [], [], [], [], [], [], [], []
     seen = set()
     for r in rows:
         if r[0] == "-":
@@ -138,10 +138,20 @@ def tie(c, hb, theorems_proved=True):
         if d["frag"] != "true":
             continue
         st["frag_documents"] += 1
-        if d.get("exact", "true") != "true":
+        # the Lean `Json` does not see whether 1 was written `1` or `1.0`: CUE's float types accept only the latter.
+        # validF (literal reading) ⇒ CUE accepts ⇒ valid (permissive reading); equal verdicts = exact comparison
+        if d["valid"] == d["validF"]:
+            st["exact_documents"] = st.get("exact_documents", 0) + 1
+        else:
             st["inexact_documents"] += 1
-        elif (d["valid"] == "true") != valid:
+        if (valid and d["valid"] != "true") or (d["validF"] == "true" and not valid):
             valid_bad.append((r, m))
+        if d["strict"] == "true" and d["valid"] != "true":
+            strict_bad.append((r, m))
+        if d["e2e"] != "n/a":
+            st["end_to_end_instances"] = st.get("end_to_end_instances", 0) + 1
+            if d["e2e"] != "true":
+                e2e_bad.append((r, m))
         if d["strict"] == "true":
             st["frag_valid"] += 1
             if d["src"] == "true":
@@ -150,6 +160,8 @@ def tie(c, hb, theorems_proved=True):
                 inst_bad.append((r, m))
             if d["msrc"] != "true":
                 minst_bad.append((r, m))
+        elif valid:
+            st["frag_valid_not_strict"] = st.get("frag_valid_not_strict", 0) + 1
 
     def payload(kind, broken, r, m):
         cid = r[0].split(" ")[1] if r[0] != "-" else r[1].split(" ")[1]
@@ -167,6 +179,10 @@ def tie(c, hb, theorems_proved=True):
         c.violation(payload("front-end-oracle", "implementation-side oracle of the CUE front-end stream failed (GenerateAST panicked, or the pipeline's own load of the text gives another IR)", r, m))
     for r, m in valid_bad[:3]:
         c.violation(payload("cueValid-disagrees-with-cue", "the Lean validation semantics `cueValid` and the CUE library (Unify + Validate(Concrete)) disagree on this document", r, m))
+    for r, m in strict_bad[:3]:
+        c.violation(payload("strict-not-valid", "cueValid strict holds but the plain reading does not", r, m), found_input=False)
+    for r, m in e2e_bad[:3]:
+        c.violation(payload("end-to-end-instance-fails", "C01_cue_end_to_end_partial: FragCue ∧ PlainS (real front-end IR) ∧ Go chain ok ∧ strict validity hold but the model of the generated Go codec does not round-trip the document", r, m), found_input=False)
     for r, m in inst_bad[:3]:
         c.violation(payload("parser-soundness-instance-fails-on-real-IR", "C01_cue_parser_sound_partial: FragCue ∧ strict validity hold but the document is not in `srcDen` of the REAL front-end IR", r, m))
     for r, m in minst_bad[:3]:
@@ -178,8 +194,9 @@ def tie(c, hb, theorems_proved=True):
              % (ncases, st["front_ok_agree"], st["front_err_agree"], nref, kinds), not front_bad and not oracle_bad and st["bad_replies"] == 0,
              "disagreements %d, oracle failures %d, bad driver replies %d %s" % (len(front_bad), len(oracle_bad), st["bad_replies"], st.get("bad_reply_samples", [])[:2]))
     if st["documents"]:
-        c.oblige(STREAM + " (2): cueValid = CUE's Unify+Validate(Concrete) on every document of every schema in FragCue (%d documents, of %d in all; %d invalid)" % (st["frag_documents"], st["documents"], st["invalid"]), not valid_bad)
+        c.oblige(STREAM + " (2): cueValid = CUE's Unify+Validate(Concrete) on every document of every schema in FragCue (%d documents, of %d in all; %d invalid; %d compared exactly, %d only as literal-float-reading ⇒ CUE ⇒ permissive reading); strict ⇒ valid" % (st["frag_documents"], st["documents"], st["invalid"], st.get("exact_documents", 0), st["inexact_documents"]), not valid_bad and not strict_bad)
         c.oblige(STREAM + " (3): FragCue ∧ strict validity ⇒ srcDen on the REAL front-end IR and on the model's (%d documents of %d schemas in the fragment)" % (st["frag_valid"], st["frag_cases"]), not inst_bad and not minst_bad)
+        c.oblige(STREAM + " (3'): FragCue ∧ PlainS ∧ strict validity ⇒ decodes and round-trips (C01_cue_end_to_end_partial evaluated on the REAL front-end IR through the pass and codec models: %d documents)" % st.get("end_to_end_instances", 0), not e2e_bad)
         wok = len(witness) == 1 and all(w[2] for w in witness)
         c.oblige("witness of C01_cue_parser_sound_counterexample replays on the real front-end (2^63 unifies with CUE `int`, the text is in FragCue, the real IR says int64: not in srcDen)",
                  wok, [(w[0][1], w[1]) for w in witness] or "pinned row missing")
